@@ -219,6 +219,40 @@ def rt_random(seed, n):
     return out
 
 
+def rt_rowsum(seed, n):
+    """float-arithmetic corner (F20): policy rows and transition rows whose product sums to 0.999..9; the closed class {t,u} pays only at t.
+    Run-time tier only: the exact-rational tiers cannot see rounding by construction."""
+    from msdm.core.mdp import TabularMarkovDecisionProcess
+    from msdm.core.distributions import DictDistribution as D
+    rnd = _random.Random('rowsum/%s' % seed)
+    out = []
+    for k in range(n):
+        if k == 0:
+            a, b, c, d = 4, 15, 1, 6            # the instance that failed before e4420cd
+        else:
+            b = rnd.randint(2, 40); a = rnd.randint(1, b - 1); d = rnd.randint(2, 40); c = rnd.randint(1, d - 1)
+        pt, qt = a / b, c / d
+
+        class Mdp(TabularMarkovDecisionProcess):
+            discount_rate = 1.0
+            def initial_state_dist(self): return D({'s': 1.0})
+            def actions(self, s): return {'s': ('go', 'fall'), 't': ('go', 'fall'), 'u': ('go',), 'g': ('go',)}[s]
+            def is_absorbing(self, s): return s == 'g'
+            def next_state_dist(self, s, a):
+                return {('s', 'go'): D({'g': 1.0}), ('s', 'fall'): D({'t': 1.0}), ('t', 'go'): D({'t': qt, 'u': 1 - qt}), ('t', 'fall'): D({'u': 1.0}),
+                        ('u', 'go'): D({'t': 1.0}), ('g', 'go'): D({'g': 1.0})}[(s, a)]
+            def reward(self, s, a, ns): return -1.0 if (s, a) == ('t', 'go') else 0.0
+        m = Mdp()
+        cell = {('s', 'go'): .5, ('s', 'fall'): .5, ('t', 'go'): pt, ('t', 'fall'): 1 - pt, ('u', 'go'): 1.0, ('g', 'go'): 1.0}
+        p = tp.TabularPolicy.from_state_action_lists(state_list=m.state_list, action_list=m.action_list,
+                                                     data=[[cell.get((s, x), 0.0) for x in m.action_list] for s in m.state_list])
+        r = p.evaluate_on(m)
+        ok = all(r.state_value[s] == -math.inf for s in 'stu') and r.state_value['g'] == 0 and r.initial_value == -math.inf
+        out.append(dict(name='rt:evaluate_on(undiscounted,float-row-sums):-inf-on-and-before-the-paying-closed-class', ok=bool(ok),
+                        detail=str(dict(r.state_value)), witness=dict(pt='%d/%d' % (a, b), qt='%d/%d' % (c, d))))
+    return out
+
+
 def tasks(tier, seed):
     T = []
     fam = M.family_basic(tier, seed)
@@ -235,6 +269,7 @@ def tasks(tier, seed):
         for pm in modes:
             T.append(Task('eval/undiscounted/%s/%s' % (sk.name, pm), h_eval, (sk, 'one', pm, 0), tier='B'))
     T.append(Task('dispatch/gamma>1', h_dispatch, (fam[1],), tier='B'))
+    T.append(Task('rt/float-row-sums', rt_rowsum, (seed, 200 if tier == 'quick' else 3000), tier='R', kind='rt'))
     T.append(Task('rt/random', rt_random, (seed, 40 if tier == 'quick' else 300), tier='R', kind='rt'))
     return T
 
